@@ -112,6 +112,16 @@ CHECKS = {
         note="Trusted: hash/modexp as free functions (no-collision assumption), the 30-line reference in harness/c02.py, z3. Salts of "
              "other lengths and short B values are outside.",
         design="DESIGN.md section 5 C02"),
+    "C18": dict(
+        text="One step of the real BlePairing._async_notification from an ARBITRARY last-accepted state number (0..65535): the payload "
+             "is genuine with symbolic nonce counter (0..70000), inner GSN and value, or sealed under another key / another "
+             "advertising id, or arbitrary bytes; key / description present or not; the 100-candidate loop is fully unrolled. z3 "
+             "discharges 'listeners called and state advanced iff authentic and inner GSN == nonce and s < c < s+100' and that the "
+             "decoded value and id are delivered. Induction over the history gives freshness for sequences of any length. Routing "
+             "by advertising id through BleController._device_detected.",
+        note="Trusted: ideal 4-byte-tag AEAD (2^-32 forgery chance outside), stub accessory database, z3; sampled paths replayed with "
+             "the real pure-Python ChaCha20-Poly1305 partial-tag code.",
+        design="DESIGN.md section 5 C18"),
 }
 
 NOT_APPLICABLE = {
